@@ -8,35 +8,50 @@ longest match of the token's regular expression, then string literals over patte
 definition in the grammar. With a word token declared, a keyword is recognised only when the whole
 word equals it, and extras are skipped between tokens."
 
-Clause map
-* regular-expression matching — `deriv_correct` (`matchesB r w ↔ Matches r w`, the derivative
-  matcher decides the denotational semantics of the regex subset: classes incl. negated,
-  concatenation, alternation, `*`, and the derived `+ ? {m,n}` and literals).
-* "the token chosen by the documented rules" — `refToken` and `refToken_spec`: the chosen candidate is
-  valid, matching, at least as good as every other candidate in the documented order `Better`
-  (precedence, then length, then String over RegExp, then earlier rule) and is the only such
-  candidate; `refToken_rules` spells the four rules out one by one; `refToken_none`.
-* agreement of the generated lexer's scan with the documented choice — `lexScan_flat`: for all
-  token sets whose valid tokens share one precedence, all inputs: `lexScan = refToken`.
-* the exact relation for ARBITRARY precedences — `lexScan_vs_refToken` (the scan returns the documented
-  choice, or a strictly longer token of strictly lower precedence: the only possible deviation is
-  DIFFERENCE 1), `lexScan_none_iff`, `lexScan_eq_refToken_iff`, `lexScan_eq_refToken_of_longest`.
-* the implementation's cut-off (see DIFFERENCES) — `lexScan` and `lexScan_sound`: whatever the scan
-  returns is a valid matching candidate and is the documented choice among all candidates of the
-  same length (rules 4, 5 and the same-length part of rule 2).
-* precedence inside a token (`token(prec(p0, choice(prec(p1, r1), …)))`) — `Token.alts`, `scanP` /
-  `lexScanP`, and `lexScanP_eq_lexScan` (without inner precedences it is `lexScan`).  The documented
-  rules do not say what inner precedences mean; sets containing such tokens are compared with
-  `lexScanP` (correspondence) and are not judged against `refToken`.
-* immediate tokens (`token.immediate`) — `validAt`: after skipped extras an immediate token is not a
-  candidate; every theorem about `refToken` / `lexScan` is parametric in the valid-token predicate and
-  therefore applies to `validAt toks valid off`.
-* "extras are skipped between tokens" — `refTokenize`, `refTokenize_progress` (the result does not
-  depend on the fuel once it exceeds the input length) and `tokenize_increasing` (every token is
-  non-empty and starts at or after the end of the previous one).
-* "a keyword is recognised only when the whole word equals it" — `keyword_whole_word`;
-  per parse state (keywords not valid everywhere, reserved words): `withKeywordsIn`, `keyword_in_state`,
-  `keyword_not_ok_stays_word`.
+Clause map — each phrase of the property text → theorems, with the status
+  [P]  proved for the model, for ALL token sets / valid sets / inputs (no hypothesis)
+  [Ph] proved under a hypothesis that is stated and, where decidable, evaluated by the check
+  [T]  tie: the model function is compared with the REAL generated lexer (correspondence, sampled token sets × inputs)
+  [J]  judged only: a Lean judge evaluates the clause on real outputs, no ∀-theorem about the implementation
+
+1. "the token's regular expression" (what a match is)
+   [P] `deriv_correct` — `matchesB r w ↔ Matches r w`: the derivative matcher decides the denotational semantics
+       (classes incl. negated, concatenation, alternation, `*`, derived `+ ? {m,n}`, literals).
+   [T] Unicode property classes, case-insensitive flags and large character sets are expanded by the explorer into
+       ranges with the generator's own tables before they reach the model (harness/src/bin/c14.rs); trusted, see notes.
+2. "the token chosen by the documented rules … higher lexical precedence first, then the longest match …, then string
+   literals over patterns, then earlier definition"
+   [P] `refToken_spec` — the documented choice is a valid matching candidate, at least as good as every candidate in the
+       order `Better`, and the ONLY such candidate; `refToken_rules` — the four rules one by one (plus the undocumented
+       immediate-token tie-break, DIFFERENCE 3); `refToken_none` — no token iff no valid token matches a non-empty prefix.
+3. "At each position the generated lexer returns [that token]"
+   [P] `lexScan_sound` — whatever the model of the generated lexer's scan returns is a valid matching candidate and the
+       documented choice among the candidates of the same length.
+   [P] `lexScan_vs_refToken` — for ARBITRARY precedences: the scan returns the documented choice OR a strictly longer token
+       of strictly lower precedence (DIFFERENCE 1, the only possible deviation); `lexScan_none_iff`;
+       `lexScan_eq_refToken_iff`; `lexScan_eq_refToken_of_longest`.
+   [Ph] `lexScan_flat` — hypothesis `FlatPrec` (all valid tokens share one precedence): `lexScan = refToken` everywhere.
+   [P] `lexScanP_eq_lexScan` — precedences INSIDE a token (`Token.alts`, `scanP`): without them `lexScanP` is `lexScan`;
+       with them the documentation is silent, such sets are only tied [T], not judged against `refToken`.
+   [T] real lexer = `lexScan` / `lexScanP` on every token of every sampled input (leaf sequences of real parses; keyword
+       sets through `withKeywordsIn`); [J] real lexer vs `refToken` with every difference classified — two classes are
+       KNOWN FINDINGS (lower-precedence overtake = DIFFERENCE 1; merged-lex-state continuation leak = DIFFERENCE 4).
+   NOT proved: the generated C lexer / `build_lex_table` itself is not modelled; 3 is about the model `lexScan` and tied by [T].
+4. "among the tokens valid in the current parse state"
+   [P] every theorem is parametric in `valid : Nat → Bool`; `validAt` removes immediate tokens after skipped extras.
+   [J] two-mode grammars: per lexing step the valid set is read from the REAL look-ahead iterator of the real parse state
+       (parse log), and the real token is judged against `refToken` with that set; known finding: through merged lex states
+       a token that is not valid in the state can win (fixes/C14-merged-lex-state-continuation.diff is a proposed repair).
+5. "extras are skipped between tokens"
+   [P] `tokenize_spec` — the reference tokenization satisfies `Tokenized`: before every token exactly the maximal run of
+       extras is skipped (the token starts at a non-extra character), the token is the chooser's answer at that position,
+       is non-empty, and after the last token only extras remain; `tokenize_increasing`; `refTokenize_progress` (no fuel
+       effects).  [T] real leaf positions = reference token positions.
+6. "With a word token declared, a keyword is recognised only when the whole word equals it"
+   [P] `keyword_whole_word` (only-if: a keyword is returned only when the main lexer matched the word token and the keyword
+       lexer matched exactly the same characters), `keyword_matches_word`, `keyword_recognised` (if), per parse state:
+       `keyword_in_state`, `keyword_not_ok_stays_word` (reserved words / keywords not valid in the state).
+   [T] keyword sets of the real language (accept sets of `ts_lex_keywords`, read tolerantly from parser.c) vs the model.
 
 DIFFERENCES between the documented order and the generated lexer (written down as the brief asks;
 the correspondence check compares the real lexer with `lexScan`, and counts how often `lexScan`
@@ -59,7 +74,11 @@ and `refToken` differ):
 4. (context-aware lexing) every theorem is parametric in the valid-token predicate; the check
    instantiates it with the valid set of the real parse state (from the parse table) in two-mode
    grammars.  With merged lex states the generated lexer may return a token that is NOT valid in the
-   current state when the input cannot be continued to a sentence anyway; such steps are not judged.
+   current state.  When the input cannot be continued to a sentence anyway this is harmless and not
+   judged; when a valid sentence is rejected because of it, it is a violation — two classes are known
+   findings (through the overtake of DIFFERENCE 1, and `C14-merged-lex-state-continuation-leak`:
+   `compute_conflict_status` does not see that a longer token of another state matches a continuation
+   of a completed token that is itself still alive; proposed repair in fixes/).
 5. only error-free parses are compared token by token; when the reference finds no token at some
    position the real parser must report an error, and vice versa.
 -/
@@ -302,6 +321,89 @@ theorem tokenize_increasing (choose : Nat → List Nat → Option Cand) (isExtra
             cases h
             exact ⟨by omega, by omega, ih _ _ _ hts⟩
           · cases h
+
+/-! ### "extras are skipped between tokens", declaratively -/
+
+theorem skipExtras_split (isExtra : Nat → Bool) : ∀ l : List Nat,
+    ∃ gap, l = gap ++ skipExtras isExtra l ∧ gap.all isExtra = true ∧
+      (skipExtras isExtra l = [] ∨ ∃ c t, skipExtras isExtra l = c :: t ∧ isExtra c = false)
+  | [] => ⟨[], rfl, rfl, Or.inl rfl⟩
+  | c :: rest => by
+    by_cases hc : isExtra c = true
+    · obtain ⟨gap, h1, h2, h3⟩ := skipExtras_split isExtra rest
+      refine ⟨c :: gap, ?_, ?_, ?_⟩
+      · simp only [skipExtras, hc, if_true, List.cons_append]; rw [← h1]
+      · simp only [List.all_cons, hc, h2, Bool.and_self]
+      · simpa only [skipExtras, hc, if_true] using h3
+    · refine ⟨[], ?_, rfl, Or.inr ⟨c, rest, ?_, by simpa using hc⟩⟩
+      · simp only [skipExtras, hc, List.nil_append]; rfl
+      · simp only [skipExtras, hc]; rfl
+
+/-- what a correct tokenization of the remaining input `rem` (starting at absolute position `pos`)
+is: before every token a (possibly empty) run of extras — ALL of them, the token starts at a
+non-extra character —, the token is the chooser's answer at exactly that position (told how many
+extras were skipped), it is non-empty, and the rest is tokenized from its end; after the last token
+only extras remain. -/
+def Tokenized (choose : Nat → List Nat → Option Cand) (isExtra : Nat → Bool) :
+    List Nat → Nat → List (Nat × Nat × Nat) → Prop
+  | rem, _, [] => rem.all isExtra = true
+  | rem, pos, (i, s, e) :: rest =>
+    ∃ gap tail, rem = gap ++ tail ∧ gap.all isExtra = true ∧ (∃ c t, tail = c :: t ∧ isExtra c = false) ∧
+      s = pos + gap.length ∧ s < e ∧ choose gap.length tail = some (i, e - s) ∧
+      Tokenized choose isExtra (tail.drop (e - s)) e rest
+
+/-- `tokenize_spec`: whatever the reference tokenizer returns is a correct tokenization in the sense
+of `Tokenized` — extras (and only extras) are skipped between tokens, and each token is the
+chooser's (i.e. `refToken`'s / `lexScan`'s with the state's valid set) answer at its position. -/
+theorem tokenize_spec (choose : Nat → List Nat → Option Cand) (isExtra : Nat → Bool) :
+    ∀ (fuel pos : Nat) (input : List Nat) (ts : List (Nat × Nat × Nat)),
+      tokenizeAux choose isExtra fuel pos input = some ts → Tokenized choose isExtra input pos ts := by
+  intro fuel
+  induction fuel with
+  | zero => intro pos input ts h; simp [tokenizeAux] at h
+  | succ f ih =>
+    intro pos input ts h
+    obtain ⟨gap, hsplit, hgap, htail⟩ := skipExtras_split isExtra input
+    have hlen : input.length - (skipExtras isExtra input).length = gap.length := by
+      have := congrArg List.length hsplit
+      simp only [List.length_append] at this
+      omega
+    simp only [tokenizeAux] at h
+    split at h
+    · rename_i hemp
+      cases h
+      have : skipExtras isExtra input = [] := List.isEmpty_iff.1 hemp
+      rw [this, List.append_nil] at hsplit
+      show input.all isExtra = true
+      rw [hsplit]; exact hgap
+    · rename_i hne
+      rcases htail with hnil | ⟨c, t, hct, hc⟩
+      · rw [hnil] at hne; exact absurd rfl hne
+      · unfold lexOne at h
+        simp only [hlen] at h
+        cases hch : choose gap.length (skipExtras isExtra input) with
+        | none => simp [hch] at h
+        | some cand =>
+          obtain ⟨i, n⟩ := cand
+          simp only [hch] at h
+          split at h
+          · cases h
+          · rename_i hn
+            split at h
+            · rename_i ts' hts
+              cases h
+              refine ⟨gap, skipExtras isExtra input, hsplit, hgap, ⟨c, t, hct, hc⟩, rfl, by omega, ?_, ?_⟩
+              · have : pos + gap.length + n - (pos + gap.length) = n := by omega
+                rw [this]; exact hch
+              · have : pos + gap.length + n - (pos + gap.length) = n := by omega
+                rw [this]; exact ih _ _ _ hts
+            · cases h
+
+/-- and when the whole word equals a keyword (that is acceptable in the state), it IS recognised -/
+theorem keyword_recognised (main kw : List Nat → Option Cand) (word : Nat) (ok : Nat → Bool) (input : List Nat)
+    (n k : Nat) (hm : main input = some (word, n)) (hk : kw input = some (k, n)) (hok : ok k = true) :
+    withKeywordsIn main kw word ok input = some (k, n) ∧ withKeywords main kw word input = some (k, n) := by
+  simp [withKeywordsIn, withKeywords, hm, hk, hok]
 
 /-- `keyword_whole_word`: with keyword extraction, a keyword `i` is returned only when the main lexer
 matched the word token with some length `n` and the keyword lexer matched exactly those `n`
